@@ -46,7 +46,7 @@ const (
 )
 
 var (
-	allGas = []string{"Low", "AtLimit", "Above"}
+	allGas = []string{"Low", "AtLimit", "Above"} // the classes relative to the encrypted gas limit; near-MaxInt64 classes: plan huge
 	diag   = [][]string{{"A", "B"}}
 	allK   = [][]string{{"A"}, {"B"}, {"A", "B"}}
 )
@@ -75,6 +75,9 @@ func plansFor(thorough bool, seed int64) []Plan {
 			// every queue of up to 4 transactions x every pointer (before/inside/at/beyond the end) x slots, restart
 			{Name: "select", NEons: 1, MaxAge: 1, MaxSlot: 2, QMax: 4, QInit: 4, InitGas: allGas, Ranks: rk(),
 				KeysPN: grid([]int{0, 1, 2, 3, 4, 5}, []int{1}), OutN: []int{0}, KSets: diag, Kinds: []string{"slot", "in", "restart"}, MaxKeysOps: 1, MaxRst: 1},
+			// gas limits near MaxInt64 (the column is an int64): first after the pointer and behind Low ones; the running sum must not wrap
+			{Name: "huge", NEons: 1, MaxAge: 1, MaxSlot: 1, QMax: 3, QInit: 3, QInitMin: 2, InitGas: []string{"Low", "Half", "Max1", "Max"}, Ranks: rk(),
+				KeysPN: grid([]int{0, 1, 2}, []int{1}), OutN: []int{0}, KSets: diag, Kinds: []string{"slot", "in"}, MaxKeysOps: 1},
 			// ages 0..Max+1 and unknown, fallback, unregistered proposer, synced slot, growing queue
 			{Name: "age", NEons: 1, MaxAge: 1, Unreg: []int{2}, MaxSlot: 4, QMax: 2, QInit: 1, InitGas: []string{"Low"}, GrowGas: []string{"Low"}, Ranks: rk(),
 				KeysPN: [][2]int{{0, 1}, {1, 2}}, OutN: []int{0}, KSets: diag, Kinds: []string{"slot", "in", "grow", "sync", "restart"}, MaxKeysOps: 2, MaxRst: 1},
@@ -92,6 +95,8 @@ func plansFor(thorough bool, seed int64) []Plan {
 	return []Plan{
 		{Name: "select", NEons: 1, MaxAge: 1, MaxSlot: 3, QMax: 4, QInit: 4, InitGas: allGas, Ranks: rk(),
 			KeysPN: grid([]int{0, 1, 2, 3, 4, 5}, []int{1, 2}), OutN: []int{0}, KSets: diag, Kinds: []string{"slot", "in", "restart"}, MaxKeysOps: 1, MaxRst: 1},
+		{Name: "huge", NEons: 1, MaxAge: 1, MaxSlot: 2, QMax: 4, QInit: 4, QInitMin: 2, InitGas: []string{"Low", "AtLimit", "Half", "Max1", "Max"}, Ranks: rk(),
+			KeysPN: grid([]int{0, 1, 2, 3}, []int{1}), OutN: []int{0}, KSets: diag, Kinds: []string{"slot", "in"}, MaxKeysOps: 1},
 		{Name: "select2", NEons: 1, MaxAge: 2, MaxSlot: 4, QMax: 4, QInit: 3, QInitMin: 3, InitGas: allGas, GrowGas: allGas, Ranks: rk(),
 			KeysPN: grid([]int{0, 1, 2, 3, 4}, []int{1}), OutN: []int{0}, KSets: diag, Kinds: []string{"slot", "in", "grow"}, MaxKeysOps: 1, MaxRst: 0},
 		{Name: "age", NEons: 1, MaxAge: 1, Unreg: []int{2}, MaxSlot: 4, QMax: 3, QInit: 2, InitGas: []string{"Low", "Above"}, GrowGas: []string{"Low"}, Ranks: rk(),
@@ -925,7 +930,7 @@ func writeEvidence(c *core.Ctx, plans []Plan, outs []*Outcome, violations int, s
 			"transaction identity preimages sort after slot identity preimages (stated in newslot.go makeSlotIdentityPreimage; the concretiser respects it)",
 			"every queued transaction has gas_limit >= MinGasPerTransaction (the window of EncryptedGasLimit/MinGasPerTransaction+1 events then never cuts the gas-bounded prefix)",
 			"the eons table and the keyper_set table name the same keyper config index for the next block, and the keyper is a member of that keyper set",
-			"slot numbers, pointers and gas sums stay far below 2^63 (no integer conversion wraps)",
+			"slot numbers and pointers stay far below 2^31 / 2^63; gas limits are any int64 >= MinGasPerTransaction (classes below/at/above the limit and 2^62, MaxInt64-1, MaxInt64)",
 			"the restart is ResetAllTxPointerAges + a new Keyper object as in Keyper.Start; Start itself (network, syncers) is not run",
 		},
 		WallS: time.Since(c.Start).Seconds(), Violations: violations,
